@@ -3,6 +3,9 @@ import json, os, subprocess
 ROOT = os.path.dirname(os.path.dirname(os.path.abspath(__file__)))
 TECH = "machine-checked proof in Coq 8.16 ({tie})"
 P = {
+ "C12": dict(tie="hand model + correspondence check",
+   text="Theorems over all byte strings: path-style and virtual-hosted-style parsing agree (also end to end through a base domain), percent-decoding inverts the client encoding for every key, the 1024-byte limit is exact, every name breaking a core naming rule is refused and every name valid under the complete rules is accepted (incl. a proof that a name over the bucket alphabet is never an IPv6 literal under the std grammar), IP hosts and parser-less services are path-style, hosts resolve case-insensitively to their base domain, invalid/overlapping configurations are refused. Model tied to the code by exhaustive short names, generated paths/hosts and end-to-end GET requests through S3Service::call.",
+   note="Trusted: Coq kernel; hand models of path.rs/host.rs, of urlencoding::decode and of the core::net address grammar (transcribed from core::net::parser, checked by correspondence on address look-alikes); hyper's Uri/HeaderMap; harness. No axioms."),
  "C14": dict(tie="hand model + correspondence check",
    text="Theorems about the executable models of Range (check = RFC 9110 interval for all ranges and lengths, no u64 overflow, parse = the single-range grammar, print/parse round trip), timestamps and copy sources; models tied to the code by running model (vm_compute) and implementation on the same exhaustive-small, edge and mutated inputs on every run.",
    note="Trusted: Coq kernel incl. vm_compute; hand models of dto/range.rs (atoi prefix scan), dto/timestamp.rs (contract of the time crate), dto/copy_source.rs; harness and generators. mime parsing is external (partial). No axioms."),
